@@ -837,6 +837,7 @@ def explore_case(C: Contract, case_idx: int, case: Dict[str, Shape], max_paths=N
         solver_time=round(rec.solver_time, 3),
         by_backend=rec.by_backend,
         used_stubs=sorted(USED_STUBS),
+        models_used=sorted(__import__("pyvc.npmodel", fromlist=["x"]).MODELS_USED),
         wall=round(time.time() - t_start, 3),
     )
 
